@@ -296,6 +296,16 @@ class Run:
         if img is None:
             return 'dead'
         self.images.append((self.step_no, img))
+        op = self.ops[self.step_no] if self.step_no < len(self.ops) else {}
+        if op.get('relayout') and not self.model.has['udf'] and self.model.boot is None and self.model.hybrid is None:
+            # stand-in for a foreign image: same content, different (tolerated) layout traits
+            from vf.indep.relayout import relayout
+            alt = relayout(img, op['relayout'], bool(op.get('shrinkvs')))
+            if alt is not None:
+                img = alt
+                self.model.classes.add('relayout')
+                if op.get('shrinkvs'):
+                    self.model.classes.add('relayout-declared-size-too-small')
         new = open_image(img)
         if isinstance(new, Exception):
             self.problem('reopen/exception/%s' % exc_signature(new), 'reopen-raised',
